@@ -868,6 +868,7 @@ type SeqOutcome struct {
 // With gen != nil operations are generated online (looking at the model) and appended to sc.Ops, so
 // the executed program is always an explicit list.
 func RunSeq(seed uint64, sc *SeqCase, gen *OpGen, nops int, stopAtFirst bool) *SeqOutcome {
+	var inFlight *Op // the operation being executed (names the property a hang belongs to)
 	out := &SeqOutcome{}
 	cfg := sc.Cfg
 	w := simrt.Run(simrt.Config{Seed: seed, Parallelism: cfg.Parallelism, HashMode: cfg.HashMode, PoolMode: cfg.PoolMode, ClockOrigin: cfg.ClockOrigin, MaxSteps: 50_000_000}, func(w *simrt.World) {
@@ -904,16 +905,26 @@ func RunSeq(seed uint64, sc *SeqCase, gen *OpGen, nops int, stopAtFirst bool) *S
 				}
 			}
 			var admQ map[int]int
+			var admW map[int]uint32
 			var admSize uint64
-			admOn := sc.Admission && cfg.bounded() && m.visible(op.K) == nil &&
+			newKeyWrite := m.visible(op.K) == nil &&
 				(op.Kind == "set" || op.Kind == "setifabsent" || (op.Kind == "compute" && op.Comp == "write") || (op.Kind == "computeifabsent" && op.Comp == "write"))
+			admOn := sc.Admission && cfg.bounded() && (newKeyWrite || op.Kind == "setmax")
 			if admOn {
 				admQ = otter.VerifQueues(r.C)
+				admW = map[int]uint32{}
+				for _, k := range sortedKeys(admQ) {
+					if e := m.m[k]; e != nil {
+						admW[k] = e.W
+					}
+				}
 				_, _, admSize = otter.VerifFrequency(r.C, op.K)
 			}
+			inFlight = op
 			res := r.Exec(op)
+			inFlight = nil
 			if admOn {
-				s.admissionCheck(op, admQ, admSize)
+				s.admissionCheck(op, newKeyWrite, admQ, admW, admSize)
 			}
 			if Trace {
 				fmt.Printf("[%d] now=%d %s -> v=%d ok=%v err=%q panic=%v map=%v entry=%+v refresh=%v num=%d entries=%v\n", i, w.Now, op, res.V, res.Ok, res.Err, res.Panic, res.Map, res.Entry, res.Refresh, res.Num, res.Entries)
@@ -971,7 +982,18 @@ func RunSeq(seed uint64, sc *SeqCase, gen *OpGen, nops int, stopAtFirst bool) *S
 	out.LogHash = w.LogHash
 	out.Fail = w.Fail
 	if w.Fail != nil {
-		out.Viol = append(out.Viol, Violation{Props: P("C01", "C08", "C14"), Rule: "sim." + string(w.Fail.Kind), Detail: w.Fail.Detail, Step: out.Steps, Key: -1})
+		props, detail := P("C01", "C08", "C14"), w.Fail.Detail
+		if inFlight != nil {
+			detail = fmt.Sprintf("during %s: %s", inFlight, detail)
+			switch inFlight.Kind {
+			case "refresh", "bulkrefresh":
+				// the caller waits for the one result every manual refresh owes it
+				props = append(props, "C11")
+			case "load", "bulkget":
+				props = append(props, "C10")
+			}
+		}
+		out.Viol = append(out.Viol, Violation{Props: props, Rule: "sim." + string(w.Fail.Kind), Detail: detail, Step: out.Steps, Key: -1})
 	}
 	return out
 }
@@ -986,55 +1008,152 @@ func b2u(b bool) uint64 {
 // Trace prints every step of a sequential run (replay debugging).
 var Trace = os.Getenv("VERIF_TRACE") != ""
 
-// admissionCheck (C18, cache level): op created key C. If exactly one entry V was evicted for size,
-// V was in the main region (probation / protected) before the operation, has positive weight and C
-// survived, then some surviving entry that was in the admission window (or C itself) must have a
-// strictly greater frequency estimate than V: with the random admission pinned off, a new arrival
-// displaces the policy's victim only if its estimate is strictly greater.
-func (s *seqState) admissionCheck(op *Op, qBefore map[int]int, sizeBefore uint64) {
+// admissionCheck (C18, cache level): "a new arrival displaces the policy's victim only if its
+// estimate is strictly greater" (the random admission is pinned off). One operation (a write of a
+// new key, or SetMaximum) ran one maintenance pass that evicted some entries for size. Arrivals are
+// the entries that were in the admission window before the pass plus the written key; victims are
+// evicted entries that were in the main region. Every comparison of the pass consumes one arrival:
+// it either loses (and is evicted) or is admitted and displaces exactly one victim. Main-region
+// entries are evicted without a comparison only after every arrival has been consumed. Hence at
+// least D = min(#evicted victims, #arrivals - #evicted arrivals) of the evicted victims, the first D
+// in event order, were displaced, each by its own arrival that had not been evicted before and
+// whose estimate is strictly greater. The check looks for such an assignment (bipartite matching);
+// none means some victim was displaced by a less or equally popular arrival. Passes in which the
+// victim scan may have left the main-region part of the probation queue are skipped (see below).
+func (s *seqState) admissionCheck(op *Op, newKeyWrite bool, qBefore map[int]int, wBefore map[int]uint32, sizeBefore uint64) {
 	m, r := s.m, s.r
-	evs := r.Events[s.evStart:]
 	var ov []Event
-	for _, e := range evs {
-		if e.Atomic && (e.Cause == otter.CauseOverflow || e.Cause == otter.CauseExpiration) {
+	for _, e := range r.Events[s.evStart:] {
+		if !e.Atomic {
+			continue
+		}
+		if e.Cause == otter.CauseExpiration {
+			return
+		}
+		if e.Cause == otter.CauseOverflow {
 			ov = append(ov, e)
 		}
 	}
-	if len(ov) != 1 || ov[0].Cause != otter.CauseOverflow || ov[0].K == op.K {
+	if len(ov) == 0 {
 		return
 	}
-	v := ov[0]
-	if m.cfg.weightOf(v.V) == 0 {
-		return
-	}
-	if q, ok := qBefore[v.K]; !ok || q == 0 {
-		return
-	}
-	if _, ok := r.C.GetEntryQuietly(op.K); !ok {
-		return
-	}
-	fv, enabled, sizeAfter := otter.VerifFrequency(r.C, v.K)
+	_, enabled, sizeAfter := otter.VerifFrequency(r.C, op.K)
 	if !enabled || sizeAfter < sizeBefore {
 		return // tracking off, or an aging step ran during the operation
 	}
-	m.Probes["admission-decisions-checked"]++
-	cands := []int{op.K}
-	for k, q := range qBefore {
-		if q == 0 {
-			cands = append(cands, k)
+	freq := func(k int) uint64 { f, _, _ := otter.VerifFrequency(r.C, k); return f }
+	isArrival := func(k int) bool {
+		if newKeyWrite && k == op.K {
+			return true
+		}
+		q, ok := qBefore[k]
+		return ok && q == 0
+	}
+	var arrivals []int
+	for _, k := range sortedKeys(qBefore) {
+		if qBefore[k] == 0 && wBefore[k] > 0 && !(newKeyWrite && k == op.K) {
+			arrivals = append(arrivals, k)
 		}
 	}
-	sort.Ints(cands)
-	best := uint64(0)
-	for _, c := range cands {
-		if _, ok := r.C.GetEntryQuietly(c); !ok {
+	if newKeyWrite && m.cfg.weightOf(op.V) > 0 {
+		arrivals = append(arrivals, op.K)
+	}
+	type vic struct {
+		pos, k int
+		f      uint64
+	}
+	var victims []vic
+	lostAt := map[int]int{}
+	for i, e := range ov {
+		if isArrival(e.K) {
+			if _, dup := lostAt[e.K]; !dup {
+				lostAt[e.K] = i
+			}
 			continue
 		}
-		if f, _, _ := otter.VerifFrequency(r.C, c); f > best {
-			best = f
+		if q, ok := qBefore[e.K]; !ok || q == 0 {
+			return // an entry the policy did not know before the operation: not this check's case
+		}
+		if m.cfg.weightOf(e.V) == 0 {
+			continue // a pinned entry evicted for size is C04's / C07's finding
+		}
+		victims = append(victims, vic{i, e.K, freq(e.K)})
+	}
+	nLost := 0
+	for _, k := range arrivals {
+		if _, ok := lostAt[k]; ok {
+			nLost++
 		}
 	}
-	if best <= fv {
-		m.fail(P("C18"), "admit.displaced-more-popular", v.K, "%s: key %d (estimate %d, in the main region) was evicted in favour of new arrivals whose best estimate is %d", op, v.K, fv, best)
+	d := len(arrivals) - nLost
+	if d > len(victims) {
+		d = len(victims)
+	}
+	if d <= 0 {
+		return
+	}
+	// The accounting below needs every evicted arrival to have lost as a candidate and every evicted
+	// main-region entry to have been taken from the probation queue. Both follow if the victim
+	// scan never got past the main-region part of probation, which is certain when a positive-weight
+	// entry that was in probation before the pass is still there (the scan passes such an entry only
+	// by evicting it; arrivals moved out of the window are appended behind it).
+	qAfter := otter.VerifQueues(r.C)
+	guard := false
+	for _, k := range sortedKeys(qBefore) {
+		if qBefore[k] == 1 && wBefore[k] > 0 {
+			if q, ok := qAfter[k]; ok && q == 1 {
+				guard = true
+				break
+			}
+		}
+	}
+	if !guard {
+		m.Probes["admission-pass-skipped-probation-exhausted"]++
+		return
+	}
+	m.Probes["admission-decisions-checked"]++
+	if d > 1 {
+		m.Probes["admission-multi-displacement-passes"]++
+	}
+	// bipartite matching: displaced victim i -> arrival not lost before it with a greater estimate
+	matchOf := map[int]int{} // arrival -> victim index
+	var try func(i int, seen map[int]bool) bool
+	try = func(i int, seen map[int]bool) bool {
+		for _, c := range arrivals {
+			if seen[c] {
+				continue
+			}
+			if at, lost := lostAt[c]; lost && at < victims[i].pos {
+				continue
+			}
+			if freq(c) <= victims[i].f {
+				continue
+			}
+			seen[c] = true
+			if j, taken := matchOf[c]; !taken || try(j, seen) {
+				matchOf[c] = i
+				return true
+			}
+		}
+		return false
+	}
+	for i := 0; i < d; i++ {
+		if !try(i, map[int]bool{}) {
+			desc := ""
+			for _, c := range arrivals {
+				desc += fmt.Sprintf(" %d:%d", c, freq(c))
+				if at, lost := lostAt[c]; lost {
+					desc += fmt.Sprintf("(evicted #%d)", at)
+				}
+			}
+			vd := ""
+			for _, v := range victims[:d] {
+				vd += fmt.Sprintf(" %d:%d(#%d)", v.k, v.f, v.pos)
+			}
+			m.fail(P("C18"), "admit.displaced-more-popular", victims[i].k,
+				"%s: main-region entries evicted for size (key:estimate(event#))%s cannot each have been displaced by a distinct arrival with a strictly greater estimate; arrivals (key:estimate):%s",
+				op, vd, desc)
+			return
+		}
 	}
 }
